@@ -45,8 +45,8 @@ PROPS = {
         "units": ["U3", "U4", "U2"],
         "kani": ["U2b"],
         "level": "proof",
-        "witness": [(r"listen", "login_identity")],
-        "sweep": ["login_identity"],
+        "witness": [(r"listen", "session")],
+        "sweep": ["session"],
         "explanation": "Connection::listen is extracted whole and verified against the reference automaton of units/U3/spec.rs: Login Success is accepted "
                        "only when the RSA-decrypted verify token equals the token of this connection's Encryption Request and the identity is the one "
                        "returned by the authentication oracle (asked with the decrypted shared secret and the server public key) or the one inside an "
@@ -73,8 +73,8 @@ PROPS = {
     "C03": {
         "units": ["U3", "U4"],
         "level": "proof",
-        "witness": [(r"locale|no_target", "locale"), (r".", "routing")],
-        "sweep": ["locale", "routing"],
+        "witness": [(r"locale|no_target", "locale"), (r".", "session")],
+        "sweep": ["locale", "session"],
         "explanation": "routing(cfg, d) = select_oracle(.., filter_oracle(.., discover_oracle())) composes the adapter oracles exactly as the property "
                        "states; the automaton accepts a Transfer only as last event with the chosen target's ip text and port, and a no-target "
                        "Disconnect only with localize_oracle(Some(client locale), \"disconnect_no_target\").",
@@ -84,8 +84,8 @@ PROPS = {
     "C06": {
         "units": ["U3", "U4"],
         "level": "proof",
-        "witness": [(r".", "order")],
-        "sweep": ["order"],
+        "witness": [(r".", "session")],
+        "sweep": ["session"],
         "explanation": "The reference automaton is the protocol grammar of the property: every event trace listen can produce (for all client bytes, "
                        "adapter results, timer firings) must be accepted; any packet sent out of order, a reply after an unexpected id, or an event "
                        "after Transfer/Disconnect drives it to Bad.",
@@ -95,8 +95,8 @@ PROPS = {
     "C07": {
         "units": ["U4", "U3"],
         "level": "proof",
-        "witness": [(r".", "keepalive")],
-        "sweep": ["keepalive"],
+        "witness": [],
+        "sweep": [],
         "explanation": "State logic only: keep_alive_id == outstanding(event log) is a verified representation invariant of receive_packet, "
                        "handle_keep_alive and keep_alive; the tick branch sends the localized timeout Disconnect and fails iff an id is outstanding, else "
                        "sends exactly one Keep Alive; receive_packet(false) never sends; handle_keep_alive clears iff the ids are equal.",
@@ -107,8 +107,8 @@ PROPS = {
     "C10": {
         "units": ["U3", "U2", "U4"],
         "level": "proof",
-        "witness": [(r".", "cookies")],
-        "sweep": ["cookies"],
+        "witness": [(r".", "session")],
+        "sweep": ["session"],
         "explanation": "The automaton accepts the auth StoreCookie only for a fresh authentication with a secret, before the Transfer, with payload == "
                        "hmac(secret, json) ++ json where json prints exactly (client address, authenticated name, uuid, properties, chosen target id, some "
                        "timestamp); the session StoreCookie exactly when the client presented none, with the handshake's host and port. cookie::sign is "
@@ -132,8 +132,8 @@ PROPS = {
     "C15": {
         "units": ["U9", "U4", "U3"],
         "level": "proof",
-        "witness": [(r".", "proxy_admission")],
-        "sweep": ["proxy_admission"],
+        "witness": [],
+        "sweep": [],
         "explanation": "handle's contract: the limiter is asked at most once, with effective(proxy config, socket, peer).ip, and not at all when the PROXY "
                        "header does not parse; tagged assertions: the code after the admission step is reached only if the limiter admitted, the refused "
                        "branch shuts the socket down and returns before any Connection exists, and the Connection is built with_client_address(effective). "
